@@ -501,8 +501,368 @@ AREAS = {
 }
 
 
+# ---------------------------------------------------------------------------
+# trees (area `treel`): loop-free functions of src/bintree.c that manipulate
+# `struct cstl_bintree_node` links, translated into the vocabulary of
+# lean/Cstl/TreeL/Model.lean (`setP`/`setLf`/`setRt`/`setChL`/`setChR` on a
+# `TM` memory, `chL`/`chR` for the `l`/`r` child-function parameters, `Hd`).
+# The translation is a symbolic execution of the statement list: every
+# assignment binds a fresh name, an `if` becomes one `if … then … else …` per
+# variable it assigns (the condition is evaluated in the state before the `if`).
+# A call to a function with a loop (e.g. `__cstl_bintree_next`) is not followed:
+# its result becomes a parameter of the translated function.
+
+import re as _re
+
+
+class TreeFn:
+    NODE_FIELDS = {"p": ("pr", "setP"), "l": ("lf", "setLf"), "r": ("rt", "setRt")}
+    HDR_FIELDS = ("root", "size")
+
+    def __init__(self, decl):
+        self.decl = decl
+        self.name = decl["name"]
+        self.params = [p for p in decl["inner"] if p["kind"] == "ParmVarDecl"]
+        self.body = [c for c in decl["inner"] if c["kind"] == "CompoundStmt"][0]
+        self.hdr = None
+        self.vals = []
+        self.childfns = []
+        for p in self.params:
+            t = p["type"]["qualType"]
+            if "struct cstl_bintree *" in t or "struct cstl_heap *" in t:
+                self.hdr = p["name"]        # a heap is its embedded `bt` member
+            elif "child_func_t" in t:
+                self.childfns.append(p["name"])
+            else:
+                self.vals.append(p["name"])
+        if self.hdr is None:
+            raise Unsupported("no tree header parameter")
+        if self.childfns not in ([], ["l", "r"]):
+            raise Unsupported("child function parameters other than (l, r)")
+        self.counter = {}
+        self.extra_params = []      # results of calls that are not followed
+        self.ret = decl["type"]["qualType"].split("(")[0].strip() != "void"
+
+    # -- helpers
+    def fresh(self, base):
+        self.counter[base] = self.counter.get(base, 0) + 1
+        return "%s%d" % (base, self.counter[base])
+
+    def strip(self, e):
+        while e["kind"] in ("ImplicitCastExpr", "ParenExpr", "CStyleCastExpr", "ConstantExpr"):
+            if e["kind"] in ("ImplicitCastExpr", "CStyleCastExpr") and e.get("castKind") == "NullToPointer":
+                return {"kind": "NULL"}
+            e = e["inner"][0]
+        return e
+
+    @staticmethod
+    def atom(s):
+        return s if _re.match(r"^[A-Za-z_][A-Za-z0-9_.]*$", s) or s.startswith("(") or s.isdigit() else "(%s)" % s
+
+    def hdr_field(self, e):
+        """`bt->root` / `h->bt.root`: the header field name or None"""
+        e = self.strip(e)
+        if e["kind"] != "MemberExpr" or e["name"] not in self.HDR_FIELDS:
+            return None
+        base = self.strip(e["inner"][0])
+        if e.get("isArrow"):
+            if base["kind"] == "DeclRefExpr" and base["referencedDecl"]["name"] == self.hdr:
+                return e["name"]
+            return None
+        if base["kind"] == "MemberExpr" and base["name"] == "bt" and base.get("isArrow"):
+            b2 = self.strip(base["inner"][0])
+            if b2["kind"] == "DeclRefExpr" and b2["referencedDecl"]["name"] == self.hdr:
+                return e["name"]
+        return None
+
+    def child_call(self, e):
+        """`*l(a)` / `*r(a)`: returns ('l'|'r', a) or None"""
+        e = self.strip(e)
+        if e["kind"] == "UnaryOperator" and e["opcode"] == "*":
+            c = self.strip(e["inner"][0])
+            if c["kind"] == "CallExpr":
+                f = self.strip(c["inner"][0])
+                if f["kind"] == "DeclRefExpr" and f["referencedDecl"]["name"] in self.childfns:
+                    return f["referencedDecl"]["name"], c["inner"][1]
+        return None
+
+    def expr(self, e, env):
+        e = self.strip(e)
+        k = e["kind"]
+        if k == "NULL":
+            return "0"
+        if k == "IntegerLiteral":
+            return e["value"]
+        cc = self.child_call(e)
+        if cc:
+            return "(%s %s d %s)" % ("chL" if cc[0] == "l" else "chR", env["m"], self.atom(self.expr(cc[1], env)))
+        if k == "DeclRefExpr":
+            n = e["referencedDecl"]["name"]
+            if n not in env:
+                raise Unsupported("reference to %s" % n)
+            return env[n]
+        if k == "MemberExpr" and self.hdr_field(e):
+            return "%s.%s" % (env[self.hdr], self.hdr_field(e))
+        if k == "MemberExpr" and e.get("isArrow"):
+            base = self.strip(e["inner"][0])
+            f = e["name"]
+            if base["kind"] == "DeclRefExpr" and base["referencedDecl"]["name"] == self.hdr:
+                raise Unsupported("header field %s" % f)
+            if f in self.NODE_FIELDS:
+                return "(%s.%s %s)" % (env["m"], self.NODE_FIELDS[f][0], self.atom(self.expr(base, env)))
+            raise Unsupported("node field %s" % f)
+        if k == "BinaryOperator":
+            op = e["opcode"]
+            a, b = e["inner"]
+            if op in ("==", "!="):
+                return "(%s %s %s)" % (self.expr(a, env), "=" if op == "==" else "≠", self.expr(b, env))
+            if op == "&&":
+                return "(%s ∧ %s)" % (self.expr(a, env), self.expr(b, env))
+            if op == "||":
+                return "(%s ∨ %s)" % (self.expr(a, env), self.expr(b, env))
+        if k == "CallExpr":
+            fn = self.strip(e["inner"][0]).get("referencedDecl", {}).get("name")
+            nm = "call%d" % (len(self.extra_params) + 1)
+            self.extra_params.append((nm, "%s(%s)" % (fn, ", ".join(self.expr(a, env) for a in e["inner"][1:]))))
+            return nm
+        raise Unsupported("expression kind %s" % k)
+
+    def is_struct(self, e):
+        t = e.get("type", {}).get("qualType", "")
+        return "struct cstl_bintree_node" in t and "*" not in t
+
+    # -- statements: symbolic execution; `lines` collects (name, expr)
+    def assign(self, lhs, rhs, env, lines):
+        lhs = self.strip(lhs)
+        cc = self.child_call(lhs)
+        if cc:
+            v = self.atom(self.expr(rhs, env)) if not isinstance(rhs, str) else rhs
+            n = self.fresh("m")
+            lines.append((n, "%s %s d %s %s" % ("setChL" if cc[0] == "l" else "setChR", env["m"],
+                                               self.atom(self.expr(cc[1], env)), v)))
+            env["m"] = n
+            return
+        if lhs["kind"] == "DeclRefExpr":
+            v = lhs["referencedDecl"]["name"]
+            if self.strip(rhs)["kind"] == "DeclRefExpr" or True:
+                n = self.fresh(v)
+                lines.append((n, self.expr(rhs, env)))
+                env[v] = n
+            return
+        if lhs["kind"] == "MemberExpr" and self.hdr_field(lhs):
+            n = self.fresh(self.hdr)
+            lines.append((n, "{ %s with %s := %s }" % (env[self.hdr], self.hdr_field(lhs), self.expr(rhs, env))))
+            env[self.hdr] = n
+            return
+        if lhs["kind"] == "MemberExpr" and lhs.get("isArrow"):
+            base = self.strip(lhs["inner"][0])
+            f = lhs["name"]
+            if f in self.NODE_FIELDS:
+                n = self.fresh("m")
+                lines.append((n, "%s %s %s %s" % (self.NODE_FIELDS[f][1], env["m"], self.atom(self.expr(base, env)),
+                                                 self.atom(self.expr(rhs, env)))))
+                env["m"] = n
+                return
+        raise Unsupported("assignment target")
+
+    def exec(self, lst, env, lines):
+        """returns True if the list ended in a return"""
+        for s in lst:
+            k = s["kind"]
+            if k in ("ParenExpr", "NullStmt"):        # assert() under NDEBUG
+                continue
+            if k == "CompoundStmt":
+                if self.exec(s.get("inner", []), env, lines):
+                    return True
+                continue
+            if k == "DeclStmt":
+                for v in s["inner"]:
+                    if v["kind"] != "VarDecl":
+                        raise Unsupported("declaration")
+                    nm = v["name"]
+                    if self.is_struct(v):
+                        # `struct cstl_bintree_node t = *a;`  ->  three saved fields
+                        if "inner" not in v:
+                            raise Unsupported("uninitialised node structure")
+                        src = self.strip(v["inner"][0])
+                        if not (src["kind"] == "UnaryOperator" and src["opcode"] == "*"):
+                            raise Unsupported("node structure initialiser")
+                        a = self.atom(self.expr(src["inner"][0], env))
+                        for f in ("p", "l", "r"):
+                            n = self.fresh(nm + f)
+                            lines.append((n, "%s.%s %s" % (env["m"], self.NODE_FIELDS[f][0], a)))
+                            env[nm + "." + f] = n
+                        continue
+                    if "inner" not in v:
+                        env[nm] = "0"                   # uninitialised pointer
+                        continue
+                    n = self.fresh(nm)
+                    lines.append((n, self.expr(v["inner"][0], env)))
+                    env[nm] = n
+                continue
+            if k == "BinaryOperator" and s["opcode"] == "=":
+                lhs, rhs = s["inner"]
+                if self.is_struct(s):
+                    # struct copy through pointers / from a saved structure
+                    dst = self.strip(lhs)
+                    if not (dst["kind"] == "UnaryOperator" and dst["opcode"] == "*"):
+                        raise Unsupported("structure assignment target")
+                    d_ = self.atom(self.expr(dst["inner"][0], env))
+                    src = self.strip(rhs)
+                    if src["kind"] == "UnaryOperator" and src["opcode"] == "*":
+                        a = self.atom(self.expr(src["inner"][0], env))
+                        vals = ["(%s.%s %s)" % (env["m"], self.NODE_FIELDS[f][0], a) for f in ("p", "l", "r")]
+                    elif src["kind"] == "DeclRefExpr" and (src["referencedDecl"]["name"] + ".p") in env:
+                        t = src["referencedDecl"]["name"]
+                        vals = [env[t + "." + f] for f in ("p", "l", "r")]
+                    else:
+                        raise Unsupported("structure assignment source")
+                    n = self.fresh("m")
+                    lines.append((n, "setRt (setLf (setP %s %s %s) %s %s) %s %s"
+                                  % (env["m"], d_, vals[0], d_, vals[1], d_, vals[2])))
+                    env["m"] = n
+                    continue
+                self.assign(lhs, rhs, env, lines)
+                continue
+            if k == "UnaryOperator" and s["opcode"] in ("++", "--"):
+                t = self.strip(s["inner"][0])
+                if t["kind"] == "MemberExpr" and t["name"] == "size":
+                    n = self.fresh(self.hdr)
+                    lines.append((n, "{ %s with size := %s.size %s 1 }"
+                                  % (env[self.hdr], env[self.hdr], "+" if s["opcode"] == "++" else "-")))
+                    env[self.hdr] = n
+                    continue
+                raise Unsupported("increment")
+            if k == "IfStmt":
+                c = self.expr(s["inner"][0], env)
+                envT, envE = dict(env), dict(env)
+                linesT, linesE = [], []
+                rT = self.exec([s["inner"][1]], envT, linesT)
+                rE = self.exec([s["inner"][2]], envE, linesE) if len(s["inner"]) > 2 else False
+                if rT or rE:
+                    raise Unsupported("return inside if")
+                for v in sorted(set(list(envT) + list(envE)), key=lambda x: (x != "m", x != self.hdr, x)):
+                    if v not in env:
+                        continue                          # block-local
+                    if envT.get(v) == envE.get(v):
+                        continue
+                    base = v.replace(".", "")
+                    n = self.fresh(base)
+                    lines.append((n, "if %s then %s else %s" % (c, self.block(linesT, envT[v]), self.block(linesE, envE[v]))))
+                    env[v] = n
+                continue
+            if k == "ReturnStmt":
+                self.retval = self.expr(s["inner"][0], env) if s.get("inner") else None
+                return True
+            if k == "CallExpr" and self.strip(s["inner"][0]).get("referencedDecl", {}).get("name") == "cstl_swap":
+                # cstl_swap(&a->f, &b->f, &t, sizeof(t)): t = a->f; a->f = b->f; b->f = t
+                tgt = []
+                for a in s["inner"][1:3]:
+                    a = self.strip(a)
+                    if not (a["kind"] == "UnaryOperator" and a["opcode"] == "&"):
+                        raise Unsupported("cstl_swap argument")
+                    me = self.strip(a["inner"][0])
+                    if not (me["kind"] == "MemberExpr" and me.get("isArrow") and me["name"] in self.NODE_FIELDS):
+                        raise Unsupported("cstl_swap argument")
+                    tgt.append((me["name"], self.atom(self.expr(me["inner"][0], env))))
+                if tgt[0][0] != tgt[1][0]:
+                    raise Unsupported("cstl_swap of different fields")
+                fld, setter = self.NODE_FIELDS[tgt[0][0]]
+                sw = self.fresh("sw")
+                lines.append((sw, "%s.%s %s" % (env["m"], fld, tgt[0][1])))
+                n1 = self.fresh("m")
+                lines.append((n1, "%s %s %s (%s.%s %s)" % (setter, env["m"], tgt[0][1], env["m"], fld, tgt[1][1])))
+                n2 = self.fresh("m")
+                lines.append((n2, "%s %s %s %s" % (setter, n1, tgt[1][1], sw)))
+                env["m"] = n2
+                continue
+            raise Unsupported("statement kind %s" % k)
+        return False
+
+    @staticmethod
+    def toks(s):
+        return set(_re.findall(r"[A-Za-z_][A-Za-z0-9_]*", s))
+
+    def block(self, lines, final):
+        """the lets `final` depends on, then `final`"""
+        need = self.toks(final)
+        keep = []
+        for n, e in reversed(lines):
+            if n in need:
+                keep.append((n, e))
+                need |= self.toks(e)
+        keep.reverse()
+        if not keep:
+            return final
+        return "(" + " ".join("let %s := %s;" % (n, e) for n, e in keep) + " " + final + ")"
+
+    def lean_name(self):
+        return "c_" + ("priv_" + self.name[2:] if self.name.startswith("__") else self.name)
+
+    def render(self):
+        env = {"m": "m", self.hdr: self.hdr}
+        for v in self.vals:
+            env[v] = v
+        lines = []
+        self.retval = None
+        self.exec(self.body.get("inner", []), env, lines)
+        res = [env["m"], env[self.hdr]] + ([self.retval] if self.ret else [])
+        need_lines = []
+        need = set()
+        for r in res:
+            need |= self.toks(r)
+        for n, e in reversed(lines):
+            if n in need:
+                need_lines.append((n, e))
+                need |= self.toks(e)
+        need_lines.reverse()
+        params = "(m : TM) (%s : Hd)" % self.hdr
+        if self.vals:
+            params += " (%s : Nat)" % " ".join(self.vals)
+        if self.childfns:
+            params += " (d : Bool)"
+        for nm, what in self.extra_params:
+            params += " (%s : Nat)" % nm
+        rty = "TM × Hd" + (" × Nat" if self.ret else "")
+        doc = "".join("-- %s = the value of `%s`\n" % (nm, what) for nm, what in self.extra_params)
+        body = "\n".join("  let %s := %s" % (n, e) for n, e in need_lines)
+        return "%sdef %s %s : %s :=\n%s\n  (%s)\n" % (doc, self.lean_name(), params, rty, body, ", ".join(res))
+
+
+def translate_tree(repo, area="treel"):
+    a = AREAS[area]
+    decls = clang_ast(repo, a["src"], set(a["order"]))
+    chunks, report = [], {}
+    for name in a["order"]:
+        if name not in decls:
+            report[name] = "not found in source"
+            continue
+        try:
+            f = TreeFn(decls[name])
+            chunks.append(f.render())
+            report[name] = "translated" + ("".join("; %s := %s" % p for p in f.extra_params))
+        except Unsupported as e:
+            report[name] = "not translated: %s" % e
+    out = ("-- GENERATED by tools/c2lean.py from /repo's src/%s on every check run; do not edit.\n" % a["src"]
+           + a["header"] + "set_option linter.unusedVariables false\n" + "namespace Cstl.Gen.%s\n" % a["module"] + a["opens"] + "\n"
+           + "\n".join(chunks) + "\nend Cstl.Gen.%s\n" % a["module"])
+    return out, report
+
+
+AREAS["treel"] = dict(
+    src="bintree.c",
+    order=["__cstl_bintree_rotate", "__cstl_bintree_erase", "cstl_bintree_insert", "cstl_bintree_find"],
+    header="import Cstl.TreeL.Model\n",
+    opens="open Cstl.TreeL\n",
+    module="TreeLC",
+    custom=translate_tree,
+)
+
+
 def translate(area, repo):
     a = AREAS[area]
+    if "custom" in a:
+        return a["custom"](repo)
     decls = clang_ast(repo, a["src"], set(a["order"]))
     known = {}
     chunks = []
@@ -523,6 +883,16 @@ def translate(area, repo):
            + a["header"] + "set_option linter.unusedVariables false\n" + "namespace Cstl.Gen.%s\n" % a["module"] + a["opens"] + "\n"
            + "\n".join(chunks) + "\nend Cstl.Gen.%s\n" % a["module"])
     return out, report
+
+
+AREAS["heapl"] = dict(
+    src="heap.c",
+    order=["cstl_heap_promote_child"],
+    header="import Cstl.TreeL.Model\n",
+    opens="open Cstl.TreeL\n",
+    module="HeapLC",
+    custom=lambda repo: translate_tree(repo, "heapl"),
+)
 
 
 if __name__ == "__main__":
